@@ -181,6 +181,42 @@ PROPS = {
         "level_note": "Partial: 'promptly' is wall-clock (measured); write failures are outside the operation language (oracle only); NETCONF error "
                       "forwarding is covered by the C07 scenarios and C08 sessions. Theorem C06_no_panic for shutdown: see C07.",
     },
+    "C07": {
+        "n": {"quick": 60, "thorough": 1500},
+        "race": True,
+        "compare": "member",
+        "cone": ["Conc", "Close", "CloseDefs", "CloseLemmas", "CloseRun"] + ["CloseShard%02d" % i for i in range(13)],
+        "kernel_sample": {"quick": 4, "thorough": 12}, "kernel_maxlen": 1500,
+        "retry_sigs": r"(C07:leak|C07:hang)",
+        "timeout": {"quick": 1500, "thorough": 6000},
+        "rule": "every case runs in a child process built with the race detector: generic / network (with and without an on-close hook) / NETCONF driver "
+                "over the simulated transport, connection armed in one of the states idle, reader parked in the read, EOF seen, error pending on the "
+                "hand-off, data arriving, error arriving, after an operation, second Close; what a blocked transport read does on close: EOF / error / stays "
+                "blocked; read delays 1 us .. 1 ms (grace period of Close), jitter before Close.  The scenario table exhaustively first; then, through the "
+                "yield points of the `verif` build tag, every pair (reader-side point, closer-side point) is parked and released in both orders (forced "
+                "interleavings); then random cases.  Observed: panic / process death, Close returned, transport closed, second Close returned, goroutines "
+                "left (runtime.NumGoroutine after settling), race detector reports, and the record of yield points passed since Close was called.  "
+                "Compared with the model: the outcome (returned, closed, goroutines left) must be one of the outcomes of the model's quiescent reachable "
+                "states for that scenario (CloseRun.run_outcomes), and the yield-point record must be accepted by the model as a possible record of one of "
+                "its runs (CloseRun.accepts_hooks: arrival semantics with lag).  The synchronisation skeleton of the modelled Go functions is re-extracted "
+                "from the source on every run and compared inside Coq with the skeleton of the model's control-flow graphs (Generated.sync_skeleton, "
+                "CloseSkel.skeleton_matches).  Non-trivial = every case.",
+        "level_text": "Theorems C07_* over the protocol model (one instruction per synchronisation-relevant statement of Channel.read / Channel.Read / "
+                      "Channel.Close / Transport.read / Transport.Close / netconf Driver.read / Driver.Close / sendRPC and its poller; Go semantics of "
+                      "unbuffered channels, close, select, sync.Once, sync.Mutex): for every scenario in scope and EVERY schedule of any length no panic, "
+                      "Close can always still return (AG EF) and is loop-free with a step bound, a returned Close has closed the transport, the graceful "
+                      "path is entered only after the reader exited, no goroutine is left in any quiescent state (reader excepted for a transport whose read "
+                      "stays blocked: witness), no plain access to shared state (race freedom), System transport fd accesses never co-enabled.  Proved by "
+                      "reflective reachability (reach + check_closed evaluated by the kernel's VM in 13 shards, lifted to all schedules by "
+                      "Conc.closed_covers_all / ef_sound / moves_bounded, which are proved by induction).  The code before the repairs is refuted by witness "
+                      "schedules (C07_old_refuted_*, C07_prefix_*).",
+        "level_note": "Partial: real goroutine counts, the race detector and durations are runtime observations made by the correspondence runs; scheduler "
+                      "fairness and 'the timer of Close eventually fires' are assumed; a transport whose read never unblocks necessarily keeps its reader "
+                      "goroutine (C07_reader_remains_if_read_stays_blocked).  Out of scope of the reachability computation: NETCONF with a second Close AND "
+                      "an RPC in flight while the connection is also changing (> 10^5 states; covered separately and in the static states).",
+        "assumptions": ["Impl.Read / Impl.Close of the transport implementation are atomic and thread-safe (System transport's fd field modelled separately)",
+                        "scheduler fairness; time.After eventually fires"],
+    },
     "C08": {
         "n": {"quick": 120, "thorough": 5000},
         "cone": ["Bytes", "BytesLemmas", "Regex", "Generated", "Netconf", "NetconfLemmas", "NcSession", "NcSessionLemmas"],
